@@ -1,1 +1,127 @@
-//! (to be filled)
+//! Shape family: EnumIs / EnumTryAs. Checker for C13.
+
+use crate::*;
+use serde_json::json;
+use vmodel::spec::Kind;
+
+pub trait ShGlue: Glue {
+    /// is_<variant j>(); None when no such method is expected (disabled variant)
+    fn is(&self, j: usize) -> Option<bool>;
+    /// try_as_<variant j>(): None when no such method is expected; Some(None) = method returned None
+    fn try_as(self, j: usize) -> Option<Option<Vec<String>>>;
+    /// try_as_<j>_ref(): (renderings, addresses of the referenced values)
+    fn try_as_ref(&self, j: usize) -> Option<Option<(Vec<String>, Vec<usize>)>>;
+    /// try_as_<j>_mut(): overwrites every returned field with fresh draws, returns the new renderings
+    fn try_as_mut_set(&mut self, j: usize, d: &mut Draw) -> Option<Option<Vec<String>>>;
+    /// addresses of the payload fields, by a hand-written match
+    fn field_addrs(&self) -> Vec<usize>;
+}
+
+pub fn c13<E: ShGlue>(ctx: &mut Ctx) {
+    let spec = ctx.spec;
+    let n = spec.variants.len();
+    let draws = ctx.param("draws", 16);
+    let interesting = {
+        let tuple_sigs: Vec<Vec<vmodel::spec::FieldTy>> =
+            spec.variants.iter().filter(|v| v.kind == Kind::Tuple).map(|v| v.fields.iter().map(|f| f.ty).collect()).collect();
+        let same_sig = (0..tuple_sigs.len()).any(|a| (a + 1..tuple_sigs.len()).any(|b| tuple_sigs[a] == tuple_sigs[b] && !tuple_sigs[a].is_empty()));
+        let dup_ty = tuple_sigs.iter().any(|s| (0..s.len()).any(|a| (a + 1..s.len()).any(|b| s[a] == s[b])));
+        same_sig || dup_ty
+    };
+    let only = ctx.replay().map(|r| (r["i"].as_u64().unwrap() as usize, r["k"].as_u64().unwrap()));
+    for i in 0..n {
+        for k in 0..draws {
+            if let Some((oi, ok)) = only {
+                if oi != i || ok != k {
+                    continue;
+                }
+            }
+            let dv: Vec<u64> = (0..6).map(|j| vmodel::derive_seed(ctx.seed, "shape", i as u64 * 1000 + k, j)).collect();
+            let mk = || E::make(i, &mut Draw::new(dv.clone()));
+            let e = mk();
+            let fields = e.fields();
+            let vi = &spec.variants[i];
+            for j in 0..n {
+                let vj = &spec.variants[j];
+                let input = json!({"i": i, "k": k, "value_variant": vi.ident, "method_variant": vj.ident, "payload": fields});
+                // predicates
+                match e.is(j) {
+                    Some(b) => {
+                        ctx.eval();
+                        if k == 0 && interesting {
+                            ctx.nontrivial(format!("{}/is/{}/{}", spec.name, i, j).as_bytes());
+                        }
+                        let want = i == j && !vi.disabled();
+                        if b != want {
+                            ctx.fail("is-predicate", input.clone(), format!("{}", want), format!("{}", b));
+                        }
+                    }
+                    None => {
+                        if !vj.disabled() {
+                            panic!("glue: is_ not exposed for enabled variant");
+                        }
+                    }
+                }
+                if vj.kind != Kind::Tuple || vj.disabled() {
+                    continue;
+                }
+                let want_some = i == j;
+                // by value
+                ctx.eval();
+                if interesting {
+                    ctx.nontrivial(format!("{}/try_as/{}/{}/{}", spec.name, i, j, k).as_bytes());
+                }
+                match mk().try_as(j) {
+                    Some(got) => {
+                        let want = if want_some { Some(fields.clone()) } else { None };
+                        if got != want {
+                            ctx.fail("try_as-by-value", input.clone(), format!("{:?}", want), format!("{:?}", got));
+                        }
+                    }
+                    None => panic!("glue: try_as not exposed"),
+                }
+                // by reference
+                ctx.eval();
+                match e.try_as_ref(j) {
+                    Some(got) => match (got, want_some) {
+                        (None, false) => {}
+                        (Some((r, addrs)), true) => {
+                            if r != fields {
+                                ctx.fail("try_as-ref-values", input.clone(), format!("{:?}", fields), format!("{:?}", r));
+                            } else if addrs != e.field_addrs() {
+                                ctx.fail("try_as-ref-not-the-fields", input.clone(), "references into the value itself, in field order".into(), "references to other locations".into());
+                            }
+                        }
+                        (g, _) => ctx.fail("try_as-ref-presence", input.clone(), format!("Some: {}", want_some), format!("{:?}", g.map(|x| x.0))),
+                    },
+                    None => panic!("glue: try_as_ref not exposed"),
+                }
+                // by mutable reference: writes land in e, in order, and nowhere else
+                ctx.eval();
+                let mut m = mk();
+                let mut d2 = Draw::new(dv.iter().map(|x| x.wrapping_mul(31).wrapping_add(7)).collect());
+                match m.try_as_mut_set(j, &mut d2) {
+                    Some(got) => match (got, want_some) {
+                        (None, false) => {
+                            if m.fields() != fields || m.idx() != i {
+                                ctx.fail("try_as-mut-changed-other-variant", input.clone(), format!("{:?}", fields), format!("{:?}", m.fields()));
+                            }
+                        }
+                        (Some(newv), true) => {
+                            if m.fields() != newv || m.idx() != i {
+                                ctx.fail("try_as-mut-write-not-visible", input.clone(), format!("{:?}", newv), format!("{:?}", m.fields()));
+                            }
+                        }
+                        (g, _) => ctx.fail("try_as-mut-presence", input.clone(), format!("Some: {}", want_some), format!("{:?}", g)),
+                    },
+                    None => panic!("glue: try_as_mut not exposed"),
+                }
+            }
+            if k == 0 && i == 0 {
+                ctx.sample(json!({"enum": spec.name, "variants": spec.variants.iter().map(|v| format!("{}{:?}", v.ident, v.fields.iter().map(|f| f.ty).collect::<Vec<_>>())).collect::<Vec<_>>(),
+                    "methods": spec.variants.iter().filter(|v| !v.disabled()).map(|v| format!("is_{}", vmodel::model::snake_method(&v.ident))).collect::<Vec<_>>()}));
+            }
+        }
+    }
+    ctx.exhaustive("value variant x method matrix (all pairs)", (n * n) as u64);
+}
